@@ -50,6 +50,12 @@ theorem addConstant_spec (st : CState) (v : Value) :
     simp; omega
   · simp
 
+theorem addConstant_ext (st : CState) (v : Value) : ∃ extra, (addConstant st v).2.consts = st.consts ++ extra := by
+  unfold addConstant
+  split
+  · exact ⟨[], by simp⟩
+  · exact ⟨[v], rfl⟩
+
 theorem withConst_spec (st : CState) (op : Op) (v : Value) :
     (withConst st op v).1.arg < (withConst st op v).2.consts.length ∧ st.consts.length ≤ (withConst st op v).2.consts.length ∧
     (withConst st op v).2.funcs = st.funcs ∧ (withConst st op v).1.op = op := by
@@ -80,19 +86,23 @@ structure R (st : CState) (code : List Instr) (st' : CState) : Prop where
   grow : st.consts.length ≤ st'.consts.length
   code : CodeOk st'.consts.length code
   funcs : StOk st → StOk st'
+  /-- the constant pool only grows at its end -/
+  ext : ∃ extra, st'.consts = st.consts ++ extra
 
 theorem R_leaf_const (st : CState) (op : Op) (v : Value) : R st [(withConst st op v).1] (withConst st op v).2 := by
   have := withConst_spec st op v
-  exact ⟨this.2.1, by intro i hi _; simp at hi; subst hi; exact this.1, fun h => StOk_of h this.2.2.1 this.2.1⟩
+  exact ⟨this.2.1, by intro i hi _; simp at hi; subst hi; exact this.1, fun h => StOk_of h this.2.2.1 this.2.1,
+    addConstant_ext st v⟩
 
 
-theorem R_id (st : CState) : R st [] st := ⟨Nat.le_refl _, CodeOk_nil, id⟩
+theorem R_id (st : CState) : R st [] st := ⟨Nat.le_refl _, CodeOk_nil, id, ⟨[], by simp⟩⟩
 
 theorem R_seq {st st1 st2 : CState} {a b : List Instr} (h1 : R st a st1) (h2 : R st1 b st2) : R st (a ++ b) st2 :=
-  ⟨Nat.le_trans h1.grow h2.grow, CodeOk_append.mpr ⟨CodeOk_mono h1.code h2.grow, h2.code⟩, fun h => h2.funcs (h1.funcs h)⟩
+  ⟨Nat.le_trans h1.grow h2.grow, CodeOk_append.mpr ⟨CodeOk_mono h1.code h2.grow, h2.code⟩, fun h => h2.funcs (h1.funcs h),
+    by obtain ⟨e1, h1'⟩ := h1.ext; obtain ⟨e2, h2'⟩ := h2.ext; exact ⟨e1 ++ e2, by rw [h2', h1']; simp⟩⟩
 
 theorem R_pure (st : CState) (code : List Instr) (h : ∀ i, i ∈ code → ¬ isConstOp i.op) : R st code st :=
-  ⟨Nat.le_refl _, fun i hi hc => absurd hc (h i hi), id⟩
+  ⟨Nat.le_refl _, fun i hi hc => absurd hc (h i hi), id, ⟨[], by simp⟩⟩
 
 theorem R_snoc_pure {st st' : CState} {a : List Instr} (h1 : R st a st') (code : List Instr)
     (h : ∀ i, i ∈ code → ¬ isConstOp i.op) : R st (a ++ code) st' := R_seq h1 (R_pure st' code h)
@@ -222,7 +232,7 @@ mutual
       have c1 := compileStmts_closed body 0 st _ h1
       cases h3
       simp only at r1 c1
-      refine ⟨r1.grow, CodeOk_nil, ?_⟩
+      refine ⟨r1.grow, CodeOk_nil, ?_, r1.ext⟩
       intro hst f hf
       have hst1 := r1.funcs hst
       rcases mem_setFunc hf with rfl | hf
@@ -288,7 +298,7 @@ mutual
           obtain ⟨⟨c0, s0⟩, hv, hs⟩ := h0
           cases hs
           have rv := compileExpr_R v base st _ hv
-          exact ⟨rv.grow, CodeOk_nil, rv.funcs⟩
+          exact ⟨rv.grow, CodeOk_nil, rv.funcs, rv.ext⟩
       have r1 := compileArms_R (fun b s => compileExpr v b s) v.size
         (fun b s r hr => compileExpr_R v b s r hr) cs _ _ _ _ h1
       have r2 := compileDefaults_R cs _ _ _ h2
